@@ -213,6 +213,12 @@ pub fn gen_int_value(rng: &mut Rng, bits: u8, signed: bool, cfg: &ValCfg) -> i12
 
 pub fn int_tok(rng: &mut Rng, bits: u8, signed: bool, cfg: &ValCfg) -> Tok {
     let v = gen_int_value(rng, bits, signed, cfg);
+    if signed && v < 0 && cfg.hex && rng.chance(1, 3) {
+        // negative value of a signed field in hexadecimal notation: the two's complement bit pattern
+        // (the token value is the pattern, which is also what the writer produces)
+        let pattern = (1i128 << bits) + v;
+        return Tok::int(pattern, format!("0x{pattern:X}"));
+    }
     Tok::int(v, spell_int(rng, v, cfg))
 }
 
